@@ -185,7 +185,15 @@ def de_correspondence(ctx, res, by, qs, items, dd, st):
     plain = res.get("plain_idents", set())
 
     def no_flatten(d):
-        return not any(f["flatten"] for f in (d["fields"] if d["kind"] == "struct" else [f for v in d["variants"] for f in v["fields"]]))
+        # flattened fields: only structs with named fields and no flatten of their own (what the Deserialize model reads)
+        for f in (d["fields"] if d["kind"] == "struct" else [f for v in d["variants"] for f in v["fields"]]):
+            if f["flatten"]:
+                t = f["ty"]
+                tgt = by.get(t[1]) if t[0] == "named" else None
+                if tgt is None or tgt["kind"] != "struct" or tgt["shape"] != "named" or not tgt["fields"] or tgt.get("tag") \
+                        or any(g["flatten"] for g in tgt["fields"]) or d["params"] or d["kind"] != "struct":
+                    return False
+        return True
 
     def in_scope(t):
         # C01's plain fragment minus flatten (the Deserialize model has no flatten: serde reads flattened fields through its buffer)
